@@ -157,3 +157,23 @@ fn c02_dec_type_info() {
         _ => { assert!(false); }
     }
 }
+
+/// network-trace payload writer == reference layout in BOTH byte orders (each slice is a
+/// raw-data argument: type info RAWD in the message byte order, 16-bit length, bytes)
+#[kani::proof]
+#[kani::stub(alloc::fmt::format, fmt_stub)]
+#[kani::unwind(14)]
+fn c02_enc_nwtrace() {
+    let p = PayloadContent::NetworkTrace(vec![bytes_exact::<2>()]);
+    if kani::any() {
+        let b = p.as_bytes::<byteorder::BigEndian>();
+        let mut o = Out::new();
+        ref_put_payload(&mut o, &p, true);
+        assert!(o.eq_bytes(&b));
+    } else {
+        let b = p.as_bytes::<byteorder::LittleEndian>();
+        let mut o = Out::new();
+        ref_put_payload(&mut o, &p, false);
+        assert!(o.eq_bytes(&b));
+    }
+}
